@@ -5,36 +5,32 @@ Open Scope Z_scope.
 
 (* ---------------- codec ---------------- *)
 
-(* a flushed bufio.Writer is transparent: MarshalBinary (every type but Handshake) is
-   the concatenation of the fields *)
-Theorem C16_marshal_is_field_concatenation : forall m,
-  is_handshake m = false -> encode_msg m = ser_msg m.
+(* a flushed bufio.Writer is transparent: MarshalBinary of EVERY message type is the
+   concatenation of its fields *)
+Theorem C16_marshal_is_field_concatenation : forall m, encode_msg m = ser_msg m.
 Proof. exact encode_msg_ser. Qed.
 
-(* every well-formed message (TCP/UDP addresses, any IP bytes, ports 0..65535) whose
-   encoding fits the 4096-byte bufio buffer decodes to what was encoded *)
+(* io.ReadFull over the bufio.Reader delivers exactly the next n bytes whatever the
+   buffer holds (and the fuel of the loop model always suffices) ... *)
+Theorem C16_readfull_exact : forall n r,
+  wfrd r -> 0 <= n <= zlen (rd_rest r) ->
+  exists r', rd_full n r = (Some (zfirstn n (rd_rest r)), r') /\
+             rd_rest r' = zskipn n (rd_rest r) /\ wfrd r'.
+Proof. exact rd_full_ok. Qed.
+
+(* ... and fails exactly when fewer than n bytes are left *)
+Theorem C16_readfull_short : forall n r,
+  wfrd r -> zlen (rd_rest r) < n -> fst (rd_full n r) = None.
+Proof. exact rd_full_short. Qed.
+
+(* EVERY protocol message decodes to what was encoded: all seven message types, TCP/UDP
+   addresses with any IP bytes, ports and protocol version 0..65535, at most 255 announced
+   addresses (vd_msg is this value domain - it mentions no length), payloads/strings of
+   any length.  The only hypothesis about size is that the encoding fits the uint16 frame
+   length field of conn2.send. *)
 Theorem C16_codec_roundtrip : forall m,
-  wf_msg m -> is_handshake m = false -> zlen (encode_msg m) <= BUFSZ -> transport m = Some m.
+  vd_msg m -> zlen (encode_msg m) < 65536 -> transport m = Some m.
 Proof. exact codec_roundtrip. Qed.
-
-(* the decoder is right for a handshake whose sender flushes *)
-Theorem C16_handshake_decodes_when_flushed : forall m,
-  wf_msg m -> zlen (encode_flushed m) <= BUFSZ ->
-  decode_msg (msg_type m) (encode_flushed m) = Some m.
-Proof. exact handshake_flushed_roundtrip. Qed.
-
-(* FULL statement "every message decodes to what was encoded" (payloads up to 65000):
-   refuted one byte above the buffer size ... *)
-Theorem C16_codec_roundtrip_large_refuted :
-  exists m, wf_msg m /\ is_handshake m = false /\ zlen (encode_msg m) = BUFSZ + 1 /\
-            transport m <> Some m.
-Proof. exact roundtrip_large_refuted. Qed.
-
-(* ... and for Handshake.MarshalBinary, which never flushes *)
-Theorem C16_handshake_marshal_refuted :
-  exists m, wf_msg m /\ encode_msg m = [] /\
-            transport m = Some (MHandshake 0 [] [] [] []) /\ transport m <> Some m.
-Proof. exact handshake_marshal_refuted. Qed.
 
 (* ---------------- session: for every state, hence every history ---------------- *)
 
@@ -131,37 +127,55 @@ Theorem C16_closed_stays_closed : forall wire s a c,
   still_closed s (fst (fst (step wire s a))) c.
 Proof. exact step_closed. Qed.
 
+(* ---------------- whole runs over the real codec ---------------- *)
+
+(* inside the quantifier (IPs of at most 16 bytes, ports 0..65535, payloads of at most
+   65000 bytes, service writes on surfaced connections) every message and every frame
+   passes the real wire unchanged, so the run over the real codec IS the run over a
+   faithful wire - to which all the session theorems above apply *)
+Theorem C16_real_wire_is_faithful : forall acts s,
+  qinv s -> q_run s acts -> run transport s acts = run ideal_wire s acts.
+Proof. exact run_q. Qed.
+
+Theorem C16_real_wire_is_faithful_from_start : forall acts,
+  q_run sess0 acts -> run transport sess0 acts = run ideal_wire sess0 acts.
+Proof. intros acts. exact (run_q acts sess0 qinv0). Qed.
+
 (* ---------------- one connection and its reader, step by step ---------------- *)
 
 (* for EVERY schedule of receive / Close / reader steps (goroutine interleavings at the
-   granularity of the mutex-protected sections): bytes read ++ bytes buffered = accepted
-   payloads, in order - never reordered, duplicated or taken from elsewhere *)
+   granularity of the mutex-protected sections and channel operations): bytes read ++
+   bytes buffered = accepted payloads, in order - never reordered, duplicated or invented *)
 Theorem C16_reader_never_ahead : forall evs s,
   c_got (crun s evs) ++ c_buf (crun s evs) = c_got s ++ c_buf s ++ accepted (c_closed s) evs.
 Proof. exact crun_inv. Qed.
 
-(* FULL statement "every accepted byte reaches the service before Read returns EOF":
-   refuted - a receive between Read's empty-buffer test and its select wakes nobody,
-   and after Close Read returns EOF without looking at the buffer *)
-Theorem C16_bytes_lost_at_close_refuted :
-  exists evs, let s := crun cst0 evs in
-    c_pc s = PDone /\ c_got s = [] /\ accepted false evs = [1;2;3]%N.
-Proof. exact lost_at_close. Qed.
+(* for EVERY schedule: when Read returns io.EOF the service has read every accepted byte *)
+Theorem C16_all_delivered_before_eof : forall evs,
+  c_pc (crun cst0 evs) = PDone -> c_got (crun cst0 evs) = accepted false evs.
+Proof. exact all_delivered_before_eof. Qed.
 
-(* outside that window it holds *)
-Theorem C16_complete_outside_window : forall evs,
-  window_free cst0 evs -> c_pc (crun cst0 evs) = PDone -> c_got (crun cst0 evs) = accepted false evs.
-Proof. exact complete_outside_window. Qed.
+(* for EVERY schedule: a reader that waits while bytes are buffered has a wake-up pending
+   (no lost wake-up), and a reader waiting on a closed connection is let through *)
+Theorem C16_no_lost_wakeup : forall evs, wake_ok (crun cst0 evs).
+Proof. exact no_lost_wakeup. Qed.
 
-Example C16_window_free_nonvacuous :
-  let evs := [EReader 512; EReader 512; ERecv [1;2;3]%N; EReader 2; ERecv [4]%N; EClose; EReader 512; EReader 512; EReader 512] in
-  window_free cst0 evs /\ c_pc (crun cst0 evs) = PDone /\ c_got (crun cst0 evs) = [1;2;3;4]%N.
+Theorem C16_closed_lets_reader_through : forall s n,
+  c_pc s = PWait -> c_closed s = true -> c_pc (cstep s (EReader n)) = PIdle.
+Proof. exact closed_lets_reader_through. Qed.
+
+(* the schedule that used to lose bytes: receive between the reader's empty-buffer test
+   and its wait, then Close *)
+Example C16_former_window_schedule :
+  let evs := [EReader 512; ERecv [1;2;3]%N; EClose; EReader 512; EReader 512; EReader 512] in
+  c_pc (crun cst0 evs) = PDone /\ c_got (crun cst0 evs) = [1;2;3]%N /\ accepted false evs = [1;2;3]%N.
 Proof. vm_compute. repeat split. Qed.
 
 (* non-vacuity *)
 Example C16_roundtrip_hypotheses_met :
-  wf_msg fit_witness /\ is_handshake fit_witness = false /\ zlen (encode_msg fit_witness) = BUFSZ.
-Proof. exact wf_fit_witness. Qed.
+  (vd_msg large_witness /\ zlen (encode_msg large_witness) = 65032) /\
+  (vd_msg hs_witness /\ zlen (encode_msg hs_witness) = 4118).
+Proof. exact (conj large_witness_ok hs_witness_ok). Qed.
 
 Example C16_session_nonvacuous :
   let l := ATcp [192;0;2;1]%N 80 in let r1 := ATcp [10;0;0;7]%N 40000 in let r2 := ATcp [10;0;0;7]%N 40001 in
@@ -170,14 +184,13 @@ Example C16_session_nonvacuous :
   snd (fst (run transport sess0 acts)) =
     [RAcc l r1; RAcc l r2; RNone; RData [4;5]%N; RNone; RNone; RData [1;2]%N; RData [3]%N; REof; RNone; RNone; REof] /\
   snd (run transport sess0 acts) = [MEof l r2; MData l r1 [7]%N] /\
-  run_recv transport sess0 acts 1 = [1;2;3]%N.
-Proof. vm_compute. repeat split. Qed.
+  run_recv transport sess0 acts 1 = [1;2;3]%N /\ q_run sess0 acts.
+Proof. vm_compute. repeat split; (reflexivity || discriminate || lia). Qed.
 
 Print Assumptions C16_marshal_is_field_concatenation.
+Print Assumptions C16_readfull_exact.
+Print Assumptions C16_readfull_short.
 Print Assumptions C16_codec_roundtrip.
-Print Assumptions C16_handshake_decodes_when_flushed.
-Print Assumptions C16_codec_roundtrip_large_refuted.
-Print Assumptions C16_handshake_marshal_refuted.
 Print Assumptions C16_owner_is_first_registered_match.
 Print Assumptions C16_no_owner_means_no_match.
 Print Assumptions C16_same_id.
@@ -191,6 +204,9 @@ Print Assumptions C16_write_tagged.
 Print Assumptions C16_stream_in_order_exactly_once.
 Print Assumptions C16_closed_receives_nothing.
 Print Assumptions C16_closed_stays_closed.
+Print Assumptions C16_real_wire_is_faithful.
+Print Assumptions C16_real_wire_is_faithful_from_start.
 Print Assumptions C16_reader_never_ahead.
-Print Assumptions C16_bytes_lost_at_close_refuted.
-Print Assumptions C16_complete_outside_window.
+Print Assumptions C16_all_delivered_before_eof.
+Print Assumptions C16_no_lost_wakeup.
+Print Assumptions C16_closed_lets_reader_through.
